@@ -579,6 +579,10 @@ class Gen:
                     idx += 1
                 if curg: groups.append(curg)
                 for gi, g in enumerate(groups):
+                    if len(g) >= 1 and st[g[0]].text == "_" and (len(g) == 1 or st[g[1]].text == ":"):
+                        # E6: wildcard closure parameter -> unused named variable
+                        sp.replace(st[g[0]].start, st[g[0]].end, REP("E6", "_", f"__p{k}_{gi}"))
+                        continue
                     if st[g[0]].text == "(":
                         # pattern possibly followed by ': Type'
                         e = rs.match_close(st, g[0])
@@ -644,6 +648,35 @@ class Gen:
                 sp.insert(st[lp.in_kw].end, ADD("E4", f" {itname}:"))
             sp.insert(st[lp.body_open].start, ADD("E4", f"\n/*@L {lab}*/{c.text.rstrip()}\n/*@E*/\n"))
         for c in cls:
+            if c.kind == "generics":
+                # E15: `x: impl Bound` in argument position -> named type parameter (so that specs can mention it)
+                adds = []
+                for ln_ in c.text.strip().splitlines():
+                    if not ln_.strip(): continue
+                    pname, tname = [x.strip() for x in ln_.split(":")]
+                    k = fp.params_open + 1
+                    found = False
+                    while k < fp.params_close:
+                        if st[k].kind == "ident" and st[k].text == pname and st[k + 1].text == ":" and st[k + 2].text == "impl":
+                            e = k + 3; depth = 0
+                            while e < fp.params_close:
+                                if st[e].text in ("<", "("): depth += 1
+                                elif st[e].text in (">", ")"): depth -= 1
+                                elif st[e].text == "," and depth == 0: break
+                                e += 1
+                            bound = src[st[k + 3].start:st[e - 1].end]
+                            sp.replace(st[k + 2].start, st[e - 1].end, REP("E15", src[st[k + 2].start:st[e - 1].end], tname))
+                            adds.append(f"{tname}: {bound}")
+                            found = True
+                            break
+                        k += 1
+                    if not found:
+                        raise AnchorLost(f"{fid}: parameter {pname}: impl ... not found")
+                nm = it.kw + 1
+                if st[nm + 1].text == "<":
+                    sp.insert(st[nm + 1].end, ADD("E15", ", ".join(adds) + ", "))
+                else:
+                    sp.insert(st[nm].end, ADD("E15", "<" + ", ".join(adds) + ">"))
             if c.kind in ("loop_begin", "loop_end"):
                 k = int(c.args[0])
                 if k < 1 or k > len(loops):
